@@ -47,6 +47,90 @@ type Observed struct {
 	ErrMsgs  []string        `json:"errMsgs"`
 	Log      []LogEntry      `json:"log"`
 	InfoBad  []string        `json:"infoBad,omitempty"`
+	Seq      []string        `json:"seq,omitempty"`    // resolver calls and thunk calls, in order
+	Misses   int             `json:"misses"`           // calls of planMergedSelectionsForType (= memo misses) during this execution
+}
+
+// planModelResp is the driver's answer for "planModel": true (the implementation model GqlModel/Plan.lean).
+type planModelResp struct {
+	Class       string          `json:"class"`
+	What        string          `json:"what"`
+	Data        interface{}     `json:"data"`
+	ErrPaths    [][]interface{} `json:"errPaths"`
+	ErrDeferred []bool          `json:"errDeferred"`
+	Events      []struct {
+		K          string        `json:"k"`
+		Path       []interface{} `json:"path"`
+		ParentType string        `json:"parentType"`
+		Field      string        `json:"field"`
+	} `json:"events"`
+	MemoKeys []interface{} `json:"memoKeys"`
+	Misses   []int         `json:"misses"`
+	Stable   bool          `json:"stable"`
+	Dynamic  bool          `json:"dynamic"`
+}
+
+func (pm *planModelResp) seq() []string {
+	out := []string{}
+	for _, e := range pm.Events {
+		if e.K == "force" {
+			out = append(out, "force|"+seqPath(e.Path))
+		} else {
+			out = append(out, "call|"+seqPath(e.Path)+"|"+e.ParentType+"."+e.Field)
+		}
+	}
+	return out
+}
+
+// ComparePlanModel: the real executor against the bug-faithful implementation model, EXACT (also on D-04c cases): class, data tree,
+// multiset of error paths, the ORDER of resolver calls and thunk calls, and the number of lazily planned sub-selections
+// (memo misses) of this execution (`run` = index of the execution of the one plan).
+func ComparePlanModel(obs Observed, pm *planModelResp, run int) string {
+	if obs.Class == "panic" {
+		return "panic escaped the entry point: " + strings.Join(obs.ErrMsgs, "; ")
+	}
+	if pm.Class == "requestError" || obs.Class == "requestError" {
+		if pm.Class != obs.Class {
+			return fmt.Sprintf("plan model: %s (%s); real: %s %v", pm.Class, pm.What, obs.Class, obs.ErrMsgs)
+		}
+		return ""
+	}
+	canonM := hx.Canon(pm.Data)
+	if strings.Contains(canonM, "$unpredictable") {
+		return ""
+	}
+	if strings.Contains(canonM, "$func") {
+		if obs.Class != "unserialisable" {
+			return "plan model: a closure is left in the data (thunk returning a func); real: " + obs.Class
+		}
+		return ""
+	}
+	if obs.Class == "unserialisable" {
+		return "result data cannot be serialised to JSON: " + strings.Join(obs.ErrMsgs, "; ")
+	}
+	if hx.Canon(obs.Data) != canonM {
+		return "data tree differs from the implementation model's (plan model)"
+	}
+	if re, me := canonPaths(obs.ErrPaths), canonPaths(pm.ErrPaths); !sameStrings(re, me) {
+		return fmt.Sprintf("error paths differ from the plan model's: real %v model %v", re, me)
+	}
+	if ms := pm.seq(); !sameStrings(obs.Seq, ms) {
+		i := 0
+		for i < len(ms) && i < len(obs.Seq) && ms[i] == obs.Seq[i] {
+			i++
+		}
+		at := func(l []string) string {
+			if i < len(l) {
+				return l[i]
+			}
+			return "<end>"
+		}
+		return fmt.Sprintf("order of resolver calls / thunk calls differs from the plan model's at event %d: real %s model %s", i, at(obs.Seq), at(ms))
+	}
+	if run < len(pm.Misses) && obs.Misses != pm.Misses[run] {
+		return fmt.Sprintf("execution %d planned %d sub-selections lazily, the plan model %d (memo per (field plan, runtime type))", run, obs.Misses, pm.Misses[run])
+	}
+	return ""
 }
 
 func canonPaths(ps [][]interface{}) []string {
@@ -95,6 +179,9 @@ func logKeys(l []LogEntry) []string {
 	return out
 }
 
+// planMisses reads the library's step counter of planMergedSelectionsForType (build tag verif).
+func planMisses() int { return int(graphql.VerifCounters()[graphql.VerifSitePlanMergedSelectionsForType]) }
+
 // RunReal executes the case on the real library.
 func RunReal(c *Case, doc *ast.Document, built *gq.Built, rt *Runtime, ctxTag interface{}) (obs Observed) {
 	rt.Reset()
@@ -110,6 +197,8 @@ func RunReal(c *Case, doc *ast.Document, built *gq.Built, rt *Runtime, ctxTag in
 	}
 	ctx := context.WithValue(context.Background(), ctxKey{}, ctxTag)
 	var res *graphql.Result
+	before := planMisses()
+	defer func() { obs.Misses = planMisses() - before }()
 	switch c.Entry {
 	case "do":
 		res = graphql.Do(graphql.Params{Schema: built.Schema, RequestString: c.Query, OperationName: c.OpName, VariableValues: vars, Context: ctx})
@@ -149,6 +238,7 @@ func observe(res *graphql.Result, rt *Runtime) Observed {
 	}
 	rt.mu.Lock()
 	o.Log = append([]LogEntry{}, rt.Log...)
+	o.Seq = append([]string{}, rt.Seq...)
 	rt.mu.Unlock()
 	for _, e := range o.Log {
 		if e.InfoOK != "" {
@@ -167,6 +257,7 @@ type Mode struct {
 	MutationOnly bool // C13
 	Repeat       int  // C13: repetitions of the same request (map seeds)
 	PlanReuse    bool // C20/C01: reuse one plan for several executions with arg mutation
+	PlanModel    bool // C01: additionally compare with the implementation model GqlModel/Plan.lean (exact, incl. event order)
 }
 
 func sameStrings(a, b []string) bool {
@@ -444,6 +535,28 @@ func One(run *hx.Run, drv *hx.Driver, m Mode, c *Case) {
 		run.CheckError("model ran out of fuel")
 		return
 	}
+	var pm planModelResp
+	planDiff := ""
+	if m.PlanModel {
+		req["planModel"] = true
+		if c.Entry == "plan" && c.Reuse > 1 {
+			req["reuse"] = c.Reuse
+		}
+		if err := drv.Ask(req, &pm); err != nil {
+			run.CheckError(err.Error())
+			return
+		}
+		delete(req, "planModel")
+		delete(req, "reuse")
+		if pm.Class == "fuelOut" {
+			run.CheckError("plan model ran out of fuel")
+			return
+		}
+		if !pm.Stable {
+			run.CheckError("plan model: executions of one plan differ (contradicts Plan.plan_reuse_transparent)")
+			return
+		}
+	}
 	isMut := isMutationOp(doc, c.OpName)
 	reps := 1
 	if m.Repeat > 1 {
@@ -470,16 +583,21 @@ func One(run *hx.Run, drv *hx.Driver, m Mode, c *Case) {
 								obs = Observed{Class: "panic", ErrMsgs: []string{fmt.Sprint(r)}}
 							}
 						}()
+						before := planMisses()
 						res := graphql.ExecutePlan(plan, graphql.ExecuteParams{Schema: built.Schema, AST: doc, OperationName: c.OpName, Args: vars,
 							Context: context.WithValue(context.Background(), ctxKey{}, i)})
 						obs = observe(res, rt)
+						obs.Misses = planMisses() - before
 						for _, e := range obs.Log {
 							if e.CtxTag != i {
 								obs.InfoBad = append(obs.InfoBad, fmt.Sprintf("%s: context of execution %v seen in execution %d", e.Field, e.CtxTag, i))
 							}
 						}
 					}()
-					if d, _ := Compare(m, c, obs, &mr, isMut); d != "" {
+					if m.PlanModel && planDiff == "" {
+						planDiff = ComparePlanModel(obs, &pm, i)
+					}
+					if d, _ := Compare(m, c, obs, &mr, isMut); d != "" || planDiff != "" {
 						break
 					}
 				}
@@ -491,12 +609,30 @@ func One(run *hx.Run, drv *hx.Driver, m Mode, c *Case) {
 					obs.InfoBad = append(obs.InfoBad, e.Field+": resolver did not receive the caller's context")
 				}
 			}
+			if m.PlanModel && planDiff == "" {
+				planDiff = ComparePlanModel(obs, &pm, 0)
+			}
 		}
-		if d, _ := Compare(m, c, obs, &mr, isMut); d != "" {
+		if d, _ := Compare(m, c, obs, &mr, isMut); d != "" || planDiff != "" {
 			break
 		}
 	}
 	diff, kf := Compare(m, c, obs, &mr, isMut)
+	if m.PlanModel {
+		run.Tag("plan-model-compared")
+		if pm.Dynamic {
+			run.Tag("plan-specialised-per-request")
+		}
+		if len(pm.MemoKeys) > 0 {
+			run.Tag("plan-lazy-subplans")
+		}
+		for _, e := range pm.Events {
+			if e.K == "force" {
+				run.Tag("plan-model-forces-closure")
+				break
+			}
+		}
+	}
 	if m.Conformance && obs.Class == "result" && obs.Data != nil && mr.Class == "result" {
 		// C04: the Conforms checker (GqlModel/Conforms.lean, proved sound) on the REAL executor's data
 		var cr modelResp
@@ -549,6 +685,12 @@ func One(run *hx.Run, drv *hx.Driver, m Mode, c *Case) {
 	nontrivial := len(mr.Log) >= 2 && (len(mr.ErrPaths) > 0 || strings.Contains(c.Query, "...") || strings.Contains(c.Query, "@"))
 	run.Case(c.Query+"|"+hx.Canon(c.Vars)+"|"+hx.Canon(c.World)+"|"+c.Entry, nontrivial,
 		map[string]interface{}{"query": gen.Describe(c.Query), "opName": c.OpName, "vars": c.Vars, "entry": c.Entry, "resolverCalls": len(mr.Log), "errors": len(mr.ErrPaths)})
+	if planDiff != "" {
+		// the implementation model is bug-faithful: a disagreement with it is never the known finding
+		run.Violation("real executor vs implementation model (GqlModel/Plan.lean): "+planDiff,
+			map[string]interface{}{"case": c, "real": obs, "planModel": pm, "model": mr}, false)
+		return
+	}
 	if kf {
 		run.KnownFinding("nonNullThunkFailure", "a deferred value (thunk) that fails or yields null under a non-null type nulls the whole response instead of the nearest nullable ancestor (D-04c)")
 		return
